@@ -167,12 +167,52 @@ static void caseC08(uint64_t, vh::Rng& g)
 	if (h.relatedNonEmpty) { R->nontrivial(vh::fnv(h.trace)); if (R->wantSample()) R->sample(h.trace); }
 }
 
+// ----------------------------------------------------------------- single operations on generated pairs
+// (the pair generators of the inclusion monitors: structured families with repeated child states,
+// unary cycles, many tuples per symbol — shapes the tiny automata of the histories rarely have)
+template <class A>
+static void pairOps(const char* enc, const Alpha& al, const RTA& a, const RTA& b, const std::string& text)
+{
+	std::string k = std::string("C08/") + enc + "/pair";
+	try
+	{
+		SharedDict sd; std::map<std::string, St> ids;
+		A X, Y; X.LoadFromString(parser(), rm::toTimbuk(a, al, "A", "p"), sd.tr); Y.LoadFromString(parser(), rm::toTimbuk(b, al, "B", "r"), sd.tr);
+		auto obs = [&](const A& x) { return fromDump(x.DumpToString(serializer()), ids); };
+		RTA x0 = obs(X), y0 = obs(Y);
+		if (rm::cmpLang(a, x0, al) > 0 || rm::cmpLang(b, y0, al) > 0) { R->violation(k + "/load/language", text); return; }
+		R->phase(std::string(enc) + " pair Intersection"); { RTA r = obs(A::Intersection(X, Y)); if (rm::checkBin(x0, y0, r, al, false) == 0) R->violation(k + "/isect/language", text); }
+		R->phase(std::string(enc) + " pair Intersection(swapped)"); { RTA r = obs(A::Intersection(Y, X)); if (rm::checkBin(x0, y0, r, al, false) == 0) R->violation(k + "/isect/language", text); }
+		R->phase(std::string(enc) + " pair Union"); { RTA r = obs(A::Union(X, Y)); if (rm::checkBin(x0, y0, r, al, true) == 0) R->violation(k + "/union/language", text); }
+		R->phase(std::string(enc) + " pair UnionDisjointStates"); { RTA r = obs(A::UnionDisjointStates(X, Y)); if (rm::checkBin(x0, y0, r, al, true) == 0) R->violation(k + "/uniondisj/language", text); }
+		R->phase(std::string(enc) + " pair RemoveUselessStates");
+		{ RTA r = obs(Y.RemoveUselessStates()); if (rm::cmpLang(y0, r, al) > 0) R->violation(k + "/useless/language", text); std::set<St> u = rm::useful(r); for (St s : r.states()) if (!u.count(s)) { R->violation(k + "/useless/dead-state", text); break; } }
+		R->phase(std::string(enc) + " pair RemoveUnreachableStates"); { RTA r = obs(Y.RemoveUnreachableStates()); if (rm::cmpLang(y0, r, al) > 0) R->violation(k + "/unreach/language", text); }
+		if (obs(X) != x0 || obs(Y) != y0) R->violation(k + "/operand-changed", text);
+		R->count(std::string(enc) + ":pair-cases");
+	}
+	catch (std::exception& e) { R->violation(k + "/exception", std::string(e.what()) + "\n" + text); }
+}
+
+static void caseC08pair(vh::Rng& g)
+{
+	Alpha al; RTA a, b; std::string kind; gen::genPair(g, 5, 9, al, a, b, kind, true);
+	if (a.states().size() > 8 || b.states().size() > 8) { R->count("pair-skipped-large"); return; }
+	std::string text = rm::toTimbuk(a, al, "A", "p") + rm::toTimbuk(b, al, "B", "r"); R->desc(text); R->count("pair:" + kind);
+	pairOps<BDDBottomUpTreeAut>("bu", al, a, b, text); pairOps<BDDTopDownTreeAut>("td", al, a, b, text);
+	{	// bottom-up -> top-down conversion keeps the language
+		try { SharedDict sd; BDDBottomUpTreeAut X; X.LoadFromString(parser(), rm::toTimbuk(b, al, "B", "r"), sd.tr); std::map<std::string, St> ids; RTA t = fromDump(X.GetTopDownAut().DumpToString(serializer()), ids); if (rm::cmpLang(b, t, al) > 0) R->violation("C08/bu/pair/totopdown/language", text); }
+		catch (std::exception& e) { R->violation("C08/bu/pair/totopdown/exception", e.what()); }
+	}
+	if (rm::refEmpty(a, al) == 0 && rm::refEmpty(b, al) == 0) { R->nontrivial(vh::fnv("pair" + text)); if (R->wantSample() && g.chance(1, 50)) R->sample("pair operations: " + kind + "\n" + text); }
+}
+
 int main(int argc, char** argv)
 {
 	vh::Run run(argc, argv); R = &run;
 	if (run.prop != "C08") { fprintf(stderr, "mon_bddhist: unknown property %s\n", run.prop.c_str()); return 2; }
 	uint64_t idx;
-	while (run.next(idx)) { vh::Rng g = run.rng(idx); caseC08(idx, g); }
+	while (run.next(idx)) { vh::Rng g = run.rng(idx); if (idx % 3 == 2) caseC08pair(g); else caseC08(idx, g); }
 #ifdef LIBVATA_VERIF
 	for (int i = 0; i < VATA::Verif::NUM_COUNTERS; ++i) if (VATA::Verif::Counters()[i]) run.count(std::string("reach:") + VATA::Verif::CounterName(i), static_cast<long>(VATA::Verif::Counters()[i]));
 #endif
